@@ -409,6 +409,23 @@ def _run_stretch(spec, idx, ctx):
         ctx.close(float(np.max(np.abs(a2 - y))), 1e-8, "stretch_of_inverse_after_update", lambda: "%s: parameter %r -> %r, max|s(s^-1(y))-y|" % (name, oldv, newv), **common)
         b2 = np.asarray(inv2(np.asarray(s(y.copy())).copy()), dtype=np.float64)
         ctx.close(float(np.max(np.abs(b2 - y))), 1e-8, "inverse_of_stretch_after_update", lambda: "%s: parameter %r -> %r, max|s^-1(s(y))-y|" % (name, oldv, newv), **common)
+    # state after an error: an assignment that the object *rejects* (raises) must leave it as it was; one that is silently accepted
+    # puts the object outside the property's parameter domain and is undone by the harness
+    if name != "LinearStretch":
+        field = "power" if name == "PowerLawStretch" else "a"
+        cur = getattr(s, field)
+        for bad in (0, -2.0, float("nan")):
+            try:
+                setattr(s, field, bad)
+            except Exception:  # noqa: BLE001
+                ctx.count("invalid_parameter_assignment_rejected")
+                kept = getattr(s, field)
+                ctx.check(kept == cur, "rejected_assignment_changed_state", lambda: "%s.%s = %r raised but the attribute is now %r (was %r)" % (name, field, bad, kept, cur), **common)
+                a3 = np.asarray(s(np.asarray(s.inverse(y.copy())).copy()), dtype=np.float64)
+                ctx.close(float(np.max(np.abs(a3 - y))), 1e-8, "stretch_of_inverse_after_rejected_assignment", lambda: "%s after rejected %s = %r" % (name, field, bad), **common)
+            else:
+                ctx.count("invalid_parameter_assignment_accepted_and_undone")
+            setattr(s, field, cur)
     ctx.nontrivial(("stretch_inv", name, "default" if spec.get("default") else "p%d" % (idx % 7)), not spec.get("default"))
     ctx.observe(cls=name, par=par)
 
